@@ -682,7 +682,6 @@ func (e *Engine) BuildCrossVC(fnA, fnB *ssa.Function, es *EquivSpec, cs *CrossSp
 	return vc
 }
 
-
 // crossReplaySource: differential test for a cross-function lemma: at every dispatch of state A on a byte satisfying the
 // condition, A is run on one copy of the reached scanner and B (made the current state) on another; outcomes must agree.
 func crossReplaySource(stateA, stateB, cond string) string {
